@@ -19,12 +19,13 @@ impl Names {
     }
 }
 
-pub struct Printer<'a> { pub p: &'a Prog, pub names: Names, pub in_macro: bool }
+pub struct Printer<'a> { pub p: &'a Prog, pub names: Names, pub in_macro: bool, /// constants in aggregate / negation arguments are printed as named constants (`KONST1`) of the enclosing module
+    pub named_consts: bool }
 
 type Kinds = HashMap<Var, Kind>;
 
 impl<'a> Printer<'a> {
-    pub fn new(p: &'a Prog) -> Self { Printer { p, names: Names::default_for(p), in_macro: false } }
+    pub fn new(p: &'a Prog) -> Self { Printer { p, names: Names::default_for(p), in_macro: false, named_consts: false } }
 
     fn kind(&self, k: &Kinds, v: Var) -> Kind {
         if v >= PARAM_BASE { return Kind::Ref; }
@@ -123,7 +124,7 @@ impl<'a> Printer<'a> {
             BodyItem::Agg { res, f, bound, rel, args } => {
                 let mut k2 = k.clone();
                 if let Some(b) = bound { k2.insert(*b, Kind::Ref); }
-                let args_s: Vec<String> = args.iter().map(|a| match a { Arg::Var(v) => self.names.var(*v), other => self.arg(other, &k2) }).collect();
+                let args_s: Vec<String> = args.iter().map(|a| match a { Arg::Var(v) => self.names.var(*v), Arg::Expr(Expr::Const(c)) if self.named_consts => format!("KONST{}", c), other => self.arg(other, &k2) }).collect();
                 let (fname, kind) = match f {
                     AggFn::Count => ("::ascent::aggregators::count".to_string(), Kind::Usize),
                     AggFn::Sum => ("::ascent::aggregators::sum".to_string(), Kind::Val),
@@ -143,7 +144,7 @@ impl<'a> Printer<'a> {
                 s
             }
             BodyItem::Neg { rel, args } => {
-                let args_s: Vec<String> = args.iter().map(|a| self.arg(a, k)).collect();
+                let args_s: Vec<String> = args.iter().map(|a| match a { Arg::Expr(Expr::Const(c)) if self.named_consts => format!("KONST{}", c), other => self.arg(other, k) }).collect();
                 format!("!{}({})", self.names.rels[*rel], args_s.join(", "))
             }
             BodyItem::Disj(alts) => {
